@@ -528,6 +528,20 @@ func Enumerate() []*Scen {
 			out = append(out, &Scen{Target: target, Stdin: sim.Bytes(in), Chunks: chunks, Note: "enumeration: stdin in several writes", Files: []File{{Name: "p.json", State: StFile, Content: sim.Bytes(chainPatch(0)), Note: "valid"}}, Args: []Arg{{File: 0}}})
 			out = append(out, &Scen{Target: target, Stdin: sim.Bytes(in), Chunks: chunks, Note: "enumeration: stdin in several writes, no patches"})
 		}
+		// file boundaries matter: the whole-document pointer of a later file refers to what the
+		// earlier files produced, and an intermediate result that cannot be serialised or read back
+		// (root replaced by null) fails there and then
+		for _, pair := range [][2]string{
+			{`[{"op":"add","path":"/x","value":1}]`, `[{"op":"copy","from":"","path":"/whole"}]`},
+			{`[{"op":"replace","path":"/x","value":"changed"}]`, `[{"op":"test","path":"","value":{"step":0,"x":"changed","log":[]}}]`},
+			{`[{"op":"remove","path":"/log"}]`, `[{"op":"copy","from":"","path":"/before"},{"op":"move","from":"/before/step","path":"/s"}]`},
+			{`[{"op":"add","path":"","value":null}]`, `[{"op":"add","path":"","value":{"fresh":true}}]`},
+			{`[{"op":"replace","path":"","value":null}]`, `[{"op":"replace","path":"","value":[1]}]`},
+			{`[{"op":"add","path":"","value":[1,2]}]`, `[{"op":"copy","from":"","path":"/-"}]`},
+		} {
+			out = append(out, &Scen{Target: target, Stdin: sim.Bytes(chainDoc), Note: "enumeration: whole-document reference / root replacement across file boundaries", Files: []File{
+				{Name: "a.json", State: StFile, Content: sim.Bytes(pair[0]), Note: "valid"}, {Name: "b.json", State: StFile, Content: sim.Bytes(pair[1]), Note: "valid"}}, Args: []Arg{{File: 0}, {File: 1}}})
+		}
 		// a patch file of more than 1 MiB before / between / after ordinary ones (order must not depend on size)
 		for pos := 0; pos < 3; pos++ {
 			s := &Scen{Target: target, Stdin: sim.Bytes(chainDoc), Note: fmt.Sprintf("enumeration: 1 MiB patch file at position %d of 3", pos)}
@@ -926,7 +940,7 @@ func RunWorker(p sim.Params) *sim.Summary {
 		sum.Enum["fault_and_order_enumeration"]++
 	}
 	if done {
-		sum.Exhaustive = []string{fmt.Sprintf("every fault kind (%d) x every position in -p lists of length 1..3 with all other patches valid, every permutation of three chained and of three overwriting patches, no/duplicate/symlinked arguments, 14 stdin variants (empty, other roots, torn, byte-order marks, trailing data), 255/256/257/512 patch arguments, a 1 MiB patch file at each of 3 positions, 100 patch files under an open-file limit of 32, stdin delivered in 1/2/n writes, a named pipe and a relative symlink in a sub-directory as patch file at every position, 4 path styles x 4 flag spellings - for both binaries (%d executions)", numFaultKinds, len(enum))}
+		sum.Exhaustive = []string{fmt.Sprintf("every fault kind (%d) x every position in -p lists of length 1..3 with all other patches valid, every permutation of three chained and of three overwriting patches, no/duplicate/symlinked arguments, 14 stdin variants (empty, other roots, torn, byte-order marks, trailing data), 255/256/257/512 patch arguments, a 1 MiB patch file at each of 3 positions, six two-file lists whose second file refers to the whole document or replaces a null root, 100 patch files under an open-file limit of 32, stdin delivered in 1/2/n writes, a named pipe and a relative symlink in a sub-directory as patch file at every position, 4 path styles x 4 flag spellings - for both binaries (%d executions)", numFaultKinds, len(enum))}
 	}
 	// 2. seeded random scenarios
 	for i := int64(0); i < p.MaxRuns && time.Now().Before(p.Deadline); i++ {
